@@ -28,7 +28,7 @@ ASSUMPTIONS = ['the object interface (Fitter.fit + keep) is the reference for re
                'filter_output may raise on a record with zero fits, but then must raise the same class on every channel']
 PROBES = ['zero_fit_record_reached_consumer', 'ineligible_line_skipped', 'short_line_ended_input', 'lines_after_terminator_ignored',
           'preexisting_output_replaced', 'restart_after_crash', 'restart_after_enospc', 'prompt_n_abort', 'channel_list', 'channel_obj',
-          'channel_path', 'nan_result_record', 'crash_inside_metadata', 'no_final_newline', 'prelude_epoch', 'channel_fresh', 'intruder_fit', 'manual_source_edited_in_place', 'manual_same_source_object_written_again', 'same_name_on_two_eligible_lines', 'plot_only_some_sources']
+          'channel_path', 'nan_result_record', 'crash_inside_metadata', 'no_final_newline', 'prelude_epoch', 'channel_fresh', 'intruder_fit', 'manual_source_edited_in_place', 'manual_same_source_object_written_again', 'same_name_on_two_eligible_lines', 'plot_only_some_sources', 'intruder_read_own_fit_file']
 
 
 def budgets(tier):
@@ -410,6 +410,7 @@ def _execute(sc, sim, out):
             objs = twin                       # results exactly as Fitter.fit + keep returned them (never pickled)
         else:
             objs = pipe.read_fit_sed(outp)
+        objs_as_read = [canon_record(o, meta=True) for o in objs]
         if sc.get('intruder'):
             # a second simulated user in the same process: same model names and filters, another package directory
             from ..author import prelude_spec
@@ -420,9 +421,20 @@ def _execute(sc, sim, out):
                 ri = pipe.call(pipe.Fitter, names_i, ap_i, di, **pipe.fitter_kwargs(Wi, sc))
                 if ri[0] == 'ok':
                     from ..author import make_source
-                    pipe.call(ri[1].fit, make_source(eligible[0]))
+                    rj = pipe.call(ri[1].fit, make_source(eligible[0]))
                     out.probe('intruder_fit')
                     sim.fired('intruder_fit')
+                    if rj[0] == 'ok':
+                        # ... who also stores the result in a fit file of their own, reads it back and lists it
+                        other = sim.path('other.fitinfo')
+                        if pipe.call(pipe.write_fit_file, other, [rj[1]])[0] == 'ok':
+                            pipe.call(pipe.read_fit_sed, other)
+                            pipe.run_consumer(sim, 'wp', other, ('N', 2), 'intruder', {})
+                            out.probe('intruder_read_own_fit_file')
+            if [canon_record(o, meta=True) for o in objs] != objs_as_read:
+                out.violate('caller-objects-changed', 'results read from the file (records or their metadata) changed while another user worked with another package and fit file')
+                out.trace = trace
+                return
         arg = outp if channel == 'path' else (objs if channel in ('list', 'fresh') else objs[0])
         out.probe('channel_' + channel)
         fbytes = env.real_open(outp, 'rb').read()
